@@ -153,6 +153,7 @@ def ops_table():
         ("knot_insert[1]", lambda c: c.knot_insert([F(1)]), True), ("knot_insert[1,1,1,1]", lambda c: c.knot_insert([F(1)] * 4), True),
         ("knot_insert[9]", lambda c: c.knot_insert([F(9)]), True), ("knot_insert[3/2,1/2]", lambda c: c.knot_insert([F(3, 2), F(1, 2)]), True),
         ("knot_insert[0,3]", lambda c: c.knot_insert([F(0), F(3)]), True),
+        ("knot_insert(generator 2,1/2)", lambda c: c.knot_insert(x for x in (F(2), F(1, 2))), True), ("knot_remove(generator 1)", lambda c: c.knot_remove((x for x in (F(1),)), None), True),
         ("knot_remove[1]", lambda c: c.knot_remove([F(1)]), True), ("knot_remove[5/7]", lambda c: c.knot_remove([F(5, 7)]), True),
         ("knot_remove[1],None", lambda c: c.knot_remove([F(1)], None), True),
         ("knot_remove[1,1]", lambda c: c.knot_remove([F(1), F(1)]), True), ("knot_remove[2,1]", lambda c: c.knot_remove([F(2), F(1)]), True), ("knot_remove[0]", lambda c: c.knot_remove([F(0)]), True),
